@@ -545,6 +545,12 @@ func (p *OAuthProxy) Proxy(rw http.ResponseWriter, req *http.Request) {
 	// If the request is explicitly whitelisted, we skip authentication
 	if p.IsWhitelistedRequest(req) {
 		tags = append(tags, "auth_type:whitelisted")
+		// the request is not authenticated: identity headers chosen by the client must not
+		// reach the upstream
+		req.Header.Del("X-Forwarded-User")
+		req.Header.Del("X-Forwarded-Email")
+		req.Header.Del("X-Forwarded-Groups")
+		req.Header.Del("X-Forwarded-Access-Token")
 	} else {
 		tags = append(tags, "auth_type:authenticated")
 		err = p.Authenticate(rw, req)
@@ -741,6 +747,8 @@ func (p *OAuthProxy) Authenticate(rw http.ResponseWriter, req *http.Request) (er
 
 	req.Header.Set("X-Forwarded-User", session.User)
 
+	// never forward a client-chosen access token header
+	req.Header.Del("X-Forwarded-Access-Token")
 	if p.upstreamConfig.PassAccessToken && session.AccessToken != "" {
 		req.Header.Set("X-Forwarded-Access-Token", session.AccessToken)
 	}
